@@ -171,9 +171,9 @@ pub fn build(quick: bool) -> PropRun {
                 let heavy = n_frames > 6;
                 let dev = if heavy { 4 } else if quick { 6 } else { 8 };
                 let env = LwEnv { fates: if mode == SendMode::Reliable { &[Fate::Deliver, Fate::Drop, Fate::Dup, Fate::Delay3] } else { &[Fate::Deliver, Fate::Dup] }, deltas: &[20, 0, 2000], dev_rounds: dev, dev_start: 0,
-                                  max_rounds: dev + crate::props::T_LIVE_ROUNDS, skip_choice: false, flush_choice: !quick, blackouts: &[], stop_when_idle: true, fair_delta: 20, slow_after: usize::MAX, slow_delta: 250, fuel: 4_000_000 };
+                                  max_rounds: dev + crate::props::T_LIVE_ROUNDS, skip_choice: false, flush_choice: !quick, blackouts: &[], stop_when_idle: true, fair_delta: 20, slow_after: usize::MAX, slow_delta: 250, fuel: 4_000_000, shifts: &[] };
                 let d = if heavy { 1 } else if quick { 2 } else { 3 };
-                scs.push(lw_scenario(LwSpec { tag: "C04.size".into(), cfg, script: si, env, d, oracles }));
+                scs.push(lw_scenario(LwSpec { tag: "C04.size".into(), cfg, script: si, env, d, oracles, probe_round: 0 }));
             }
         }
     }
@@ -182,8 +182,8 @@ pub fn build(quick: bool) -> PropRun {
         let size = uflow::MAX_PACKET_SIZE;
         let cfg = LwCfg { pwin: 4, fwin: 4096, bw: [u32::MAX, u32::MAX], rx_alloc: [size, size], ..LwCfg::small() };
         let si = Arc::new(ScriptInfo::new(vec![send(0, 0, 0, SendMode::Reliable, size)]));
-        let env = LwEnv { fates: FATES_NONE, deltas: &[20], dev_rounds: 0, dev_start: 0, max_rounds: 40_000, skip_choice: false, flush_choice: false, blackouts: &[], stop_when_idle: true, fair_delta: 20, slow_after: usize::MAX, slow_delta: 250, fuel: 50_000_000 };
-        scs.push(lw_scenario(LwSpec { tag: "C04.max-packet".into(), cfg, script: si, env, d: 0, oracles }));
+        let env = LwEnv { fates: FATES_NONE, deltas: &[20], dev_rounds: 0, dev_start: 0, max_rounds: 40_000, skip_choice: false, flush_choice: false, blackouts: &[], stop_when_idle: true, fair_delta: 20, slow_after: usize::MAX, slow_delta: 250, fuel: 50_000_000, shifts: &[] };
+        scs.push(lw_scenario(LwSpec { tag: "C04.max-packet".into(), cfg, script: si, env, d: 0, oracles, probe_round: 0 }));
     }
     PropRun { level: "model_checking", scenarios: scs, units: receiver_units(quick), replay_case: Some(replay_case), summary: Summary {
         rule: "(a) deviation-bounded link-world exploration with one packet of every boundary size (fragment multiples +-1), three flush budgets, frame fates; wire fragments and delivered bytes compared with the submitted payload, no frame above 1472 bytes; (b) a lone real receiver fed with all arrival orders x duplication patterns x interleavings with a neighbour packet, and with every disagreeing fragment at every position after the first genuine one".into(),
